@@ -965,6 +965,23 @@ func (x *Exec) checkFrame(st *State, fr *Frame, a *Addr, where string) {
 			if m.K == "ident" && m.Name == "everything" {
 				return
 			}
+			if m.K == "call" && m.X.K == "ident" && m.X.Name == "deref" && len(m.Args) == 1 && a.K == AHeap {
+				// deref(p): the whole variable p pointed to at entry
+				func() {
+					defer func() {
+						if r := recover(); r != nil {
+							if _, ok := r.(evalError); !ok {
+								panic(r)
+							}
+						}
+					}()
+					pv := x.eval(env, m.Args[0])
+					if pa := x.ptrAddr(pv); pa != nil && pa.K == AHeap && pa.Key == a.Key {
+						alts = append(alts, Eq(a.Ref, pa.Ref))
+					}
+				}()
+				continue
+			}
 			if m.K != "sel" && m.K != "ident" {
 				continue
 			}
